@@ -139,6 +139,11 @@ func H19b_dead_subscriber() {
 	pub.peerSend(specEncode(&specPkt{Typ: specPINGREQ}))
 	vrtQuiesce()
 	vrtAssert("C19.harness_publisher_held_up", len(pub.peerTake()) == 0)
+	if vrtBool("pings_before_dying") {
+		// its last sign of life: the answer cannot be queued (the blocked publisher holds the connection's write mutex)
+		c.peerSend(specEncode(&specPkt{Typ: specPINGREQ}))
+		vrtQuiesce()
+	}
 	vrtAssert("C19.incomplete_packet_keeps_connection", !c.isClosed())
 	c.peerExpireDeadline()
 	vrtQuiesce()
@@ -150,4 +155,34 @@ func H19b_dead_subscriber() {
 	}
 	vrtAssert("C19.publisher_answered_after_drop", vrtBytesEq(pub.peerTake(), []byte{0xD0, 0}))
 	vrtReach("C19.dead_subscriber_dropped")
+}
+
+// H19c_ping_during_large_publish: a subscriber that reads slowly is in the
+// middle of receiving a PUBLISH larger than one write block when it pings: the
+// PINGRESP comes after the complete PUBLISH, never inside it.
+func H19c_ping_during_large_publish() {
+	b := vrtBroker("mockSuccess")
+	pub, _ := b.connect(vrtConnectPkt([]byte("pub"), true))
+	c, _ := b.connect(vrtConnectPkt([]byte("c"), true))
+	vrtExchange(c, &specPkt{Typ: specSUBSCRIBE, ID: 1, Topics: [][]byte{[]byte("d")}, QoS: []byte{0}})
+	c.peerTake()
+	c.peerStall(100) // the first block still goes through, the rest of the packet waits
+	big := vrtBigPublish("d", 7)
+	pub.peerSend(specEncode(big))
+	vrtQuiesce()
+	c.peerSend(specEncode(&specPkt{Typ: specPINGREQ}))
+	vrtQuiesce()
+	c.peerStall(0) // the client reads again
+	vrtQuiesce()
+	got, ok := vrtParse(c.peerTake())
+	vrtAssert("C19.stream_wellformed_around_ping", ok)
+	good := ok && len(got) == 2
+	if good {
+		good = got[0].Typ == specPUBLISH && len(got[0].Payload) == vrtBig && got[1].Typ == specPINGRESP
+	}
+	if good {
+		good = got[0].Payload[0] == 7 && got[0].Payload[vrtBig-1] == 7
+	}
+	vrtAssert("C19.pingresp_after_the_whole_publish", good)
+	vrtReach("C19.ping_during_large_publish")
 }
